@@ -22,7 +22,7 @@ PY_ASSUMPTIONS = [
     "engine D: left-to-right evaluation, short-circuit and/or, truthiness by kind",
     "engine D: attribute reads and @property getters named `pure` in a contract are deterministic and side-effect free",
     "engine D: no aliasing between distinct symbolic objects other than what a contract states; no monkey-patching or __getattr__ magic on modelled attributes",
-    "engine D: every call not covered by a contract or a builtin axiom is an opaque effect that returns an arbitrary value or raises an arbitrary Exception (BaseException such as KeyboardInterrupt is not modelled)",
+    "engine D: every call not covered by a contract or a builtin axiom is an opaque effect that returns an arbitrary value or raises an arbitrary Exception (contracts with base_exceptions=True, i.e. Job.run/run_async, additionally let every such call raise a KeyboardInterrupt-like BaseException)",
     "engine D: recursion depth, memory and wall-clock are unbounded; termination only where a `decreases` obligation is listed",
 ]
 
